@@ -101,6 +101,11 @@ func genCase(r *rand.Rand, i int) caseSpec {
 		cs.Writers += 3
 	}
 	cs.MaxGlobalBuf = cs.MaxBuf * []int{1, 2, 1000}[r.IntN(3)]
+	if cs.Bulk > 1 && r.IntN(3) > 0 {
+		// with bulks, a global limit that a bulk can exhaust tends to wedge the indexer for good (see the
+		// report: the semaphore is released for more than was acquired); keep most such cases productive
+		cs.MaxGlobalBuf = cs.MaxBuf * 1000
+	}
 	if nidx := len(layoutSpecs(cs.Layout)); cs.Compaction && nidx >= 3 {
 		// several indexers (and their flushes) queue behind the compaction lock whenever they stall on the
 		// global buffered-data limit: such cases only time out
@@ -572,7 +577,9 @@ func (rn *run) freshness(maint string, n uint64) {
 		if len(newest) > 6 {
 			newest = newest[:6]
 		}
-		reported := false
+		// a stale answer is reported only if the answers become current afterwards (a lag); answers that
+		// never become current are a difference of content, which the comparison that follows diagnoses
+		var pendingSig, pendingDetail string
 		for attempt := 0; attempt < 3000; attempt++ {
 			behind := false
 			for _, x := range newest {
@@ -584,25 +591,27 @@ func (rn *run) freshness(maint string, n uint64) {
 					continue
 				}
 				behind = true
-				if reported {
+				if pendingSig != "" {
 					break
 				}
 				for t := n; t > 0 && n-t < 300; t-- {
 					if diff(got, expectGet(ix.m.At(t-1), x.k, true)) == "" {
-						reported = true
-						sig := "index/" + maint + "/stale-read-after-wait"
+						pendingSig = "index/" + maint + "/stale-read-after-wait"
 						if rn.compacted.Load() {
-							sig = "index/compaction/ts-recedes-stale-read"
+							pendingSig = "index/compaction/ts-recedes-stale-read"
 						}
-						rn.c.Distinct(fmt.Sprintf("%s/%s/%s/freshness-probe/stale", ix.spec.kind(), rn.bulkClass(), maint))
-						rn.viol(sig, fmt.Sprintf("[%s] index %s, idle store, maintenance during the round: %s: WaitForIndexingUpto(%d) returned, then GetWithFilters(%q) answered with the state of the log as of tx %d (%s): a stale read",
-							rn.cs, ix.spec, maint, n, x.k, t-1, d))
+						pendingDetail = fmt.Sprintf("[%s] index %s, idle store, maintenance during the round: %s: WaitForIndexingUpto(%d) returned, then GetWithFilters(%q) answered with the state of the log as of tx %d (%s): a stale read",
+							rn.cs, ix.spec, maint, n, x.k, t-1, d)
 						break
 					}
 				}
 				break
 			}
 			if !behind {
+				if pendingSig != "" {
+					rn.c.Distinct(fmt.Sprintf("%s/%s/%s/freshness-probe/stale", ix.spec.kind(), rn.bulkClass(), maint))
+					rn.viol(pendingSig, pendingDetail+fmt.Sprintf("; the answers became current %d probes later", attempt))
+				}
 				break
 			}
 			time.Sleep(5 * time.Millisecond)
